@@ -166,3 +166,60 @@ Proof.
     + constructor; auto. rewrite Forall_forall. intros z Hz. apply IH1 in Hz.
       apply lb_sibs_get_some with (r := r); auto. rewrite find_val_one in Hz. destruct (get z r); [congruence | cbn in Hz; congruence].
 Qed.
+
+(* ------------------------------------------------------------------------------------------------ DFS pre-order = lexicographic order *)
+Fixpoint lex_ltb (a b : simplex) : bool :=
+  match a, b with
+  | [], _ :: _ => true
+  | x :: a', y :: b' => (x <? y) || ((x =? y) && lex_ltb a' b')
+  | _, [] => false
+  end.
+Definition lex_lt (a b : simplex) : Prop := lex_ltb a b = true.
+
+Lemma ss_app {A} (R : A -> A -> Prop) (l1 l2 : list A) :
+  Sorted.StronglySorted R l1 -> Sorted.StronglySorted R l2 -> (forall a b, In a l1 -> In b l2 -> R a b) ->
+  Sorted.StronglySorted R (l1 ++ l2).
+Proof.
+  induction 1 as [|a l1 Hs IH Hall]; intros H2 Hx; cbn [app]; auto.
+  constructor.
+  - apply IH; auto. intros u v Hu Hv. apply Hx; [right; auto | auto].
+  - rewrite Forall_forall in *. intros u Hu. apply in_app_iff in Hu as [Hu|Hu]; [apply Hall; auto | apply Hx; [left; auto | auto]].
+Qed.
+Lemma ss_map_cons x (ks : list simplex) :
+  Sorted.StronglySorted lex_lt ks -> Sorted.StronglySorted lex_lt (map (cons x) ks).
+Proof.
+  induction 1 as [|k ks Hs IH Hall]; cbn [map]; constructor; auto.
+  rewrite Forall_forall in *. intros u Hu. apply in_map_iff in Hu as (k' & <- & Hk').
+  unfold lex_lt. cbn [lex_ltb]. rewrite Z.eqb_refl, Z.ltb_irrefl. cbn [orb andb]. apply Hall; auto.
+Qed.
+
+(* the abstraction lists the words in strictly increasing lexicographic order (prefixes first) *)
+Theorem abs_sorted : forall l, wf l -> Sorted.StronglySorted lex_lt (keys (abs l)).
+Proof.
+  apply (sibs_trie_ind (fun c => wf_t c -> Sorted.StronglySorted lex_lt (keys (abs_t c)))
+                       (fun l => wf l -> Sorted.StronglySorted lex_lt (keys (abs l)))).
+  - intros l H Hw. apply H. rewrite <- wf_t_node. exact Hw.
+  - intros _. constructor.
+  - intros x w c r IHc IHr Hwf. pose proof Hwf as Hwf0. apply wf_cons in Hwf as (Hlb & Hc & Hr).
+    rewrite abs_cons. unfold keys. rewrite map_app. cbn [map fst]. rewrite map_map. cbn [fst].
+    assert (Hmm : map (fun p : simplex * V => x :: fst p) (abs_t c) = map (cons x) (keys (abs_t c))).
+    { unfold keys. rewrite map_map. reflexivity. }
+    change (Sorted.StronglySorted lex_lt (([x] :: map (fun p : simplex * V => x :: fst p) (abs_t c)) ++ keys (abs r))).
+    rewrite Hmm.
+    apply (ss_app lex_lt ([x] :: map (cons x) (keys (abs_t c))) (keys (abs r))).
+    + constructor; [apply ss_map_cons; apply IHc; auto|].
+      rewrite Forall_forall. intros u Hu. apply in_map_iff in Hu as (k & <- & Hk).
+      unfold lex_lt. cbn [lex_ltb]. rewrite Z.eqb_refl, Z.ltb_irrefl. cbn [orb andb].
+      unfold keys in Hk. apply in_map_iff in Hk as (p & <- & Hp). apply abs_keys_nonnil in Hp.
+      destruct (fst p); [congruence | reflexivity].
+    + apply IHr; auto.
+    + intros a b Ha Hb.
+      assert (Hax : exists a', a = x :: a').
+      { destruct Ha as [<-|Ha]; [eexists; reflexivity|]. apply in_map_iff in Ha as (k & <- & _). eexists; reflexivity. }
+      destruct Hax as (a' & ->).
+      unfold keys in Hb. apply in_map_iff in Hb as ([k v] & Hk & Hb). cbn in Hk; subst k.
+      apply in_abs in Hb as [Hne Hf]; auto. destruct b as [|z b']; [congruence|].
+      assert (x < z).
+      { apply lb_sibs_get_some with (r := r); auto. apply find_val_head_get with (t := b'). congruence. }
+      unfold lex_lt. cbn [lex_ltb]. assert (x <? z = true) as -> by lia. reflexivity.
+Qed.
